@@ -118,7 +118,7 @@ def main(tier):
     quick = tier == "quick"
     findings = vlib.load_known("C04")
     jobs = []; meta = []
-    for fam, mm in (("enum", 3 if quick else 4), ("params", 3)):
+    for fam, mm in (("enum", 3), ("params", 3)):
         cfg = vlib.write_cfg("TsEmit_%s.cfg" % fam, "SPECIFICATION Spec\nCONSTANTS MaxMembers = %d\n MaxBlocks = 2\n Family = \"%s\"\nINVARIANT Emit\nCHECK_DEADLOCK FALSE\n" % (mm, fam))
         res = vlib.run_tlc("TsEmit.tla", cfg, "tsemit", workers=10, timeout=3000, heap="8g")
         c.add_tlc(res)
@@ -166,7 +166,7 @@ def main(tier):
     c.cov["exhaustive"] = True
     if unjudged: log("twins not judged because their JavaScript side does not produce the expected trace on this tree: %s" % sorted(set(unjudged)))
     c.cov["twins_not_judged"] = sorted(set(unjudged))
-    c.cov["rule"] = "every enum declaration with <= %d members over {auto, numeric, string, reference(+1), computed} members and an optional second block, every parameter-property list of <= 3 parameters x 4 modifiers x default x extends (TLC, exhaustive); %d namespace / abstract-class / enum programs against their hand-desugared JavaScript twins" % (3 if quick else 4, len(TWINS))
+    c.cov["rule"] = "every enum declaration with <= %d members (4 members make more than 10^6 initial states: TLC refuses the set) over {auto, numeric, string, reference(+1), computed} members and an optional second block, every parameter-property list of <= 3 parameters x 4 modifiers x default x extends (TLC, exhaustive); %d namespace / abstract-class / enum programs against their hand-desugared JavaScript twins" % (3, len(TWINS))
     c.assumptions += ["key ORDER is not compared (own-key order is hash order in this implementation, a C01 matter); key sets, forward and reverse lookups are",
                       "namespaces are covered by hand-written twins rather than by an enumerated tree grammar"]
     c.finish()
